@@ -122,6 +122,36 @@ def gen(rng, i, quick):
     return g.script(), {"joins": joins, "bad": bad, "exts": exts, "kp_ops": kp_ops}
 
 
+def position_script(n, c, with_path):
+    """A group of n members (leaves 0..n-1); the member at leaf c adds one more, with or without a path."""
+    names = [chr(ord("A") + k) for k in range(n + 1)]
+    members = [{"name": x} for x in names]
+    ops = [{"op": "create", "who": names[0]}]
+    if n > 1:
+        for x in names[1:n]:
+            ops.append({"op": "kp", "who": x, "id": "k" + x})
+        ops += [{"op": "commit", "who": names[0], "id": "c0", "add": ["k" + x for x in names[1:n]]}, {"op": "apply", "who": names[0]}]
+        for x in names[1:n]:
+            ops.append({"op": "join", "who": x, "welcome_any": "c0"})
+    j = names[n]
+    ops.append({"op": "kp", "who": j, "id": "kJ"})
+    ops.append({"op": "opts", "who": names[c], "path_required": with_path, "tree_ext": True, "encrypt_controls": False})
+    ops.append({"op": "commit", "who": names[c], "id": "c1", "add": ["kJ"]})
+    for x in names[:n]:
+        if x != names[c]:
+            ops.append({"op": "deliver", "to": x, "msg": "c1"})
+    ops.append({"op": "apply", "who": names[c]})
+    ops.append({"op": "join", "who": j, "welcome_any": "c1"})
+    ops.append({"op": "observe", "who": j, "observe": "all"})
+    obs = len(ops) - 1
+    ops.append({"op": "opts", "who": j, "path_required": True, "encrypt_controls": False})
+    ops.append({"op": "commit", "who": j, "id": "c2"})
+    for x in names[:n]:
+        ops.append({"op": "deliver", "to": x, "msg": "c2"})
+    ops.append({"op": "apply", "who": j})
+    return {"name": f"c07-pos-n{n}-c{c}-{'path' if with_path else 'nopath'}", "suite": 1, "members": members, "ops": ops}, {"joins": [], "bad": [], "exts": [{"name": j, "obs_join": obs}], "kp_ops": {}}
+
+
 def rejoin_script(rng, i, saved):
     """A is removed and later added again.  With `saved` its storage still holds its earlier membership."""
     names = ["A", "B", "C"]
@@ -158,6 +188,11 @@ def main(run, args):
         return
     quick = run.tier == "quick"
     items = [gen(rng, i, quick) for i in range(14 if quick else 120)]
+    # every committer position for every group size up to 9 (17 in the thorough tier), with and without a path
+    for n in range(1, 10 if quick else 18):
+        for c in range(n):
+            for wp in (True, False):
+                items.append(position_script(n, c, wp))
     rej = [rejoin_script(rng, i, s) for i in range(2 if quick else 8) for s in (False, True)]
     recs = run_scripts([x[0] for x in items] + [x[0] for x in rej], timeout=3000)
     failing, cases = [], []
